@@ -371,6 +371,16 @@ func evalImage(w cs.WAL, L *layout, d damage, heights []uint64, st stats) []viol
 func evalSearch(w cs.WAL, L *layout, d damage, h uint64, ignore bool, streamLen int, st stats) (vs []viol) {
 	who := fmt.Sprintf("SearchForEndHeight(%d, ignoreCorruption=%v)", h, ignore)
 	occ := L.markers[int64(h)]
+	if d.cut && !d.none {
+		// only what survives the cut counts as completely written
+		var keep []int
+		for _, m := range occ {
+			if m < d.p {
+				keep = append(keep, m)
+			}
+		}
+		occ = keep
+	}
 	written := len(occ) > 0
 	st["searches"]++
 	var o readOut
